@@ -109,11 +109,11 @@ macro_rules! segment_h {
 }
 //@ prop=C10 tier=quick cost=60 fns="fragmented::build_media_segment,build_moof_with_offset,build_traf,build_trun,build_mfhd,build_tfhd,build_tfdt" bound="1 sample (2 bytes), all u64 pts/dts < 2^63 with |pts-dts| < 2^31, any sync flag, seq, base" unwind=8 covers_optional="equal DTS" timeout=900
 segment_h!(c10_segment_1, 1, 114);
-//@ prop=C10 tier=quick cost=600 fns="fragmented::build_media_segment,build_moof_with_offset,build_traf,build_trun" bound="2 samples (2 and 0 bytes), all non-decreasing u64 dts with 32-bit gaps, any pts/sync/seq/base" unwind=8 mem=22 timeout=1400
+//@ prop=C10 tier=thorough cost=600 fns="fragmented::build_media_segment,build_moof_with_offset,build_traf,build_trun" bound="2 samples (2 and 0 bytes), all non-decreasing u64 dts with 32-bit gaps, any pts/sync/seq/base" unwind=8 mem=22 timeout=1400
 segment_h!(c10_segment_2, 2, 130);
 //@ prop=C10 tier=thorough cost=400 fns="fragmented::build_media_segment,build_moof_with_offset,build_traf,build_trun" bound="3 samples (2, 0, 3 bytes), all non-decreasing u64 dts with 32-bit gaps, any pts/sync/seq/base" unwind=8 timeout=3400 mem=34
 segment_h!(c10_segment_3, 3, 149);
-//@ prop=C11 tier=quick cost=600 fns="fragmented::build_trun,build_tfdt" bound="2 samples, all non-decreasing u64 dts with 32-bit gaps, any pts/sync/base (timing clauses)" unwind=8 mem=22 timeout=1400
+//@ prop=C11 tier=quick cost=600 fns="fragmented::build_trun,build_tfdt" bound="2 samples, all non-decreasing u64 dts with 32-bit gaps, any pts/sync/base (timing clauses)" unwind=8 mem=18 timeout=1400
 segment_h!(c11_segment_timing_2, 2, 130);
 //@ prop=C11 tier=thorough cost=400 fns="fragmented::build_trun,build_tfdt" bound="3 samples (timing clauses)" unwind=8 timeout=3400 mem=34
 segment_h!(c11_segment_timing_3, 3, 149);
@@ -231,9 +231,9 @@ macro_rules! flush_step_h {
 }
 //@ prop=C10 tier=quick cost=350 fns="fragmented::FragmentedMuxer::flush_segment,build_media_segment" bound="1 queued sample, any dts < 2^62, any seq < u32::MAX, any base" unwind=8 covers_optional="distinct" timeout=1200
 flush_step_h!(c10_flush_step_k1, 1, 114, false);
-//@ prop=C10 tier=quick cost=600 fns="fragmented::FragmentedMuxer::flush_segment,build_media_segment" bound="2 queued samples, non-decreasing dts < 2^62 with 32-bit gaps, any seq/base" unwind=8 timeout=1400 mem=22
+//@ prop=C10 tier=thorough cost=600 fns="fragmented::FragmentedMuxer::flush_segment,build_media_segment" bound="2 queued samples, non-decreasing dts < 2^62 with 32-bit gaps, any seq/base" unwind=8 timeout=1400 mem=22
 flush_step_h!(c10_flush_step_k2, 2, 130, false);
-//@ prop=C11 tier=quick cost=600 fns="fragmented::FragmentedMuxer::flush_segment" bound="2 queued samples: base-time update clauses" unwind=8 timeout=1400 mem=22
+//@ prop=C11 tier=thorough cost=600 fns="fragmented::FragmentedMuxer::flush_segment" bound="2 queued samples: base-time update clauses" unwind=8 timeout=1400 mem=22
 flush_step_h!(c11_flush_base_k2, 2, 130, true);
 //@ prop=C11 tier=thorough cost=600 fns="fragmented::FragmentedMuxer::flush_segment" bound="3 queued samples: base-time update clauses" unwind=8 timeout=3400 mem=34
 flush_step_h!(c11_flush_base_k3, 3, 149, true);
